@@ -106,7 +106,7 @@ def fresh_modname(rng=None):
 
 
 def gen_pipeline(rng, n_classes=None, alphabet=None, keys=None, kinds=None, by_name=0.3, optional=0.15, maxdepth=3,
-                 modname=None, bases=0.0):
+                 modname=None, bases=0.0, avoid=()):
     """a DAG of task classes + one pipeline config file declaring all of them with values for their parameters"""
     n = n_classes or rng.randint(1, 6)
     classes, values = {}, {}
@@ -145,7 +145,7 @@ def gen_pipeline(rng, n_classes=None, alphabet=None, keys=None, kinds=None, by_n
             in_kinds[rslug] = rc['kind']
         if rng.random() < optional / 2:
             inputs.append({'by': 'name', 'ref': 'absent_task', 'default': rng.choice([None, 7])})
-        kind = rng.choice(kinds or KINDS_P)
+        kind = rng.choice(kinds or [k for k in KINDS_P if k not in avoid])
         # run arguments: parameters by name; inputs by the name usable as identifier (last segment of slug)
         run_args, pull, shorts = [], [], []
         for i_ in inputs:
@@ -165,6 +165,9 @@ def gen_pipeline(rng, n_classes=None, alphabet=None, keys=None, kinds=None, by_n
                 pull.append(rslug)
         classes[cid] = {'name': name, 'group': group, 'base': base, 'params': params, 'inputs': inputs, 'kind': kind,
                         'run_args': run_args, 'pull': pull, 'in_kinds': in_kinds}
+    # sometimes the last class (nothing depends on it) yields an empty sequence: a legitimate, 0-byte stored result
+    if kinds is None and rng.random() < 0.2:
+        classes[f'K{n - 1}']['kind'] = 'genempty'
     pfile = {'tasks': list(classes)}
     pfile.update(values)
     return classes, pfile
